@@ -25,7 +25,18 @@ RULE = ("Data are self-describing float32 tensors (member k of a PointsDataLoade
         "sizes<=6 (thorough 12), batch in 1..size+2 or -1 (=full), shuffle flags and the "
         "full-data-set condition rotating; Hypothesis adds larger cases (sizes to 30, thorough "
         "40; batch dividing / not dividing / equal / larger / multiple / negative; tuples of 1-3 "
-        "Points incl. rank-3 grid data; 1-2 columns). Oracles per case: batch structure and "
+        "Points incl. rank-3 grid data; 1-2 columns). Histories on SHARED caller data: kind "
+        "'points-multi' builds a pool of 2-5 caller-side Points objects (own tensor / a second "
+        "Points on the same tensor / shifted row windows x_t, x_{t+s} of one base tensor / column "
+        "blocks of one base tensor), 1-3 PointsDataLoaders over (overlapping) tuples of pool "
+        "entries in the drawn construction order, each with its own batch size, shuffle and "
+        "drop_last, then passes over the loaders in a drawn interleaved order (every loader at "
+        "least once) and the full-data-set conditions; a DeepONet case may carry a 'twin': a "
+        "second DeepONetDataLoader (own batch sizes / shuffle flags, built before or after) "
+        "handed the very same branch / trunk / output tensor objects. Every loader of a history "
+        "is judged by all oracles against the snapshot of the data taken when the caller built "
+        "it. extra_cases pins 11 sharing templates x 5 sizes and 30 twin configurations. "
+        "Oracles per loader and pass: batch structure and "
         "spaces; every row bitwise equal to the original rows of the datum it names (pairing); "
         "batch rows <= requested (== requested when drop_last); union over one pass covers every "
         "sample / every (function, location) pair except a dropped tail of < batch rows; "
@@ -35,7 +46,8 @@ RULE = ("Data are self-describing float32 tensors (member k of a PointsDataLoade
         "recorded batches (rel 1e-5). Non-trivial: some batch size does not divide its size, "
         "or a shuffle flag is on for an axis of >= 2 rows, or (shared trunk) the branch and "
         "trunk batch cycles have a common factor, or (unique trunk) the numbers of branch and "
-        "trunk batches differ; "
+        "trunk batches differ, or (histories) a shuffling loader over >= 2 rows holds storage that "
+        "another loader / another member of its tuple also holds; "
         "distinct = spec hash without the rng seed.")
 ASSUMPTIONS = [
     "batch sizes are non-zero integers; negative means 'whole axis' for DeepONetDataLoader only "
@@ -52,11 +64,21 @@ ASSUMPTIONS = [
     "without these features - pairing, batch size, len and the aggregate on all of them",
     "a pass without batches (drop_last and n < batch) has no defined mean; only crash-freedom "
     "of the condition is checked there",
+    "'the data set' a loader is judged against is the data as the caller built it before any "
+    "loader was constructed: handing the same Points / tensor object (or views of one tensor) to "
+    "several loaders, or twice to one loader, is ordinary use (one input, several targets); the "
+    "caller does not modify the data afterwards. Whether the caller's own objects stay unmodified "
+    "is NOT judged, only what the loaders deliver",
+    "a violation of a loader that holds shared data carries the feature suffix '-shared-data' "
+    "(DeepONet twin: '-common-tensors') iff the same loader configuration built on private "
+    "copies of the same data with the same random state (same permutations) does not show it; "
+    "otherwise the plain feature is reported",
 ]
 BUDGET = {"quick": {"examples": 200, "workers": 4},
           "thorough": {"examples": 2500, "workers": 14}}
 
 NORMS = ["inf", 1, 2]
+WINDOW_PAD = 2     # rows by which windows of one base tensor may be shifted
 
 
 # ----------------------------------------------------------------------------------------
@@ -65,10 +87,8 @@ def _divisors(n):
     return [d for d in range(1, n + 1) if n % d == 0]
 
 
-@st.composite
-def _axis(draw, nmax, allow_negative):
-    """(size, batch size) with every divisibility relation well represented."""
-    n = draw(st.integers(1, nmax))
+def _draw_bs(draw, n, allow_negative):
+    """batch size for an axis of n rows with every divisibility relation well represented."""
     modes = ["div", "any", "any", "any", "exceed", "equal", "multiple"]
     if allow_negative:
         modes.append("neg")
@@ -85,7 +105,14 @@ def _axis(draw, nmax, allow_negative):
         bs = n * draw(st.integers(2, 3))
     else:
         bs = draw(st.sampled_from([-1, -1, -4]))
-    return n, bs
+    return bs
+
+
+@st.composite
+def _axis(draw, nmax, allow_negative):
+    """(size, batch size)"""
+    n = draw(st.integers(1, nmax))
+    return n, _draw_bs(draw, n, allow_negative)
 
 
 def _cond_strategy():
@@ -109,21 +136,70 @@ def _points_case(draw, nmax):
 
 
 @st.composite
+def _twin(draw, nf, nt):
+    """second DeepONetDataLoader built on the very same branch / trunk / output tensors"""
+    share = draw(st.sampled_from([["branch", "trunk"], ["branch", "trunk"], ["branch", "trunk", "out"],
+                                  ["branch"], ["trunk"], ["out"], ["trunk", "out"]]))
+    return {"bb": _draw_bs(draw, nf, True), "tb": _draw_bs(draw, nt, True),
+            "shuffle_branch": draw(st.booleans()), "shuffle_trunk": draw(st.booleans()),
+            "share": share, "first": draw(st.booleans()), "cond": draw(_cond_strategy())}
+
+
+@st.composite
 def _deeponet_case(draw, nmax, layout):
     nf, bb = draw(_axis(nmax, True))
     nt, tb = draw(_axis(nmax, True))
-    return {"kind": "deeponet", "layout": layout, "nf": nf, "bb": bb, "nt": nt, "tb": tb,
+    spec = {"kind": "deeponet", "layout": layout, "nf": nf, "bb": bb, "nt": nt, "tb": tb,
             "shuffle_branch": draw(st.booleans()), "shuffle_trunk": draw(st.booleans()),
             "pts": draw(st.integers(1, 3)), "bd": draw(st.integers(1, 2)),
             "td": draw(st.integers(1, 2)), "od": draw(st.integers(1, 2)),
             "cond": draw(_cond_strategy()),
+            "rng": draw(st.integers(0, 2 ** 31 - 1))}
+    if draw(st.sampled_from([False, False, True])):
+        spec["twin"] = draw(_twin(nf, nt))
+    return spec
+
+
+@st.composite
+def _pool_entry(draw):
+    src = draw(st.sampled_from(["own", "own", "own", "own", "alias", "window", "window", "cols"]))
+    e = {"src": src, "dim": draw(st.integers(1, 2))}
+    if src == "alias":
+        e["of"] = draw(st.integers(0, 3))
+    elif src == "window":
+        e["shift"] = draw(st.integers(0, WINDOW_PAD))
+    elif src == "cols":
+        e["col"] = draw(st.integers(0, 2))
+    return e
+
+
+@st.composite
+def _multi_case(draw, nmax):
+    """history: a pool of caller-side Points objects, several loaders built from (overlapping)
+    tuples of them, passes over the loaders in an interleaved order"""
+    n = draw(st.integers(2, nmax))
+    pool = draw(st.lists(_pool_entry(), min_size=2, max_size=5))
+    nl = draw(st.sampled_from([1, 2, 2, 2, 3]))
+    common = draw(st.sampled_from([None, 0, 0, 1]))     # entry every loader holds (shared input)
+    loaders = []
+    for _ in range(nl):
+        members = draw(st.lists(st.integers(0, 5), min_size=1, max_size=3))
+        if common is not None:
+            members[draw(st.integers(0, len(members) - 1))] = common
+        loaders.append({"members": members, "bs": _draw_bs(draw, n, False),
+                        "shuffle": draw(st.sampled_from([True, True, False])),
+                        "drop_last": draw(st.sampled_from([False, False, True])),
+                        "cond": draw(_cond_strategy()) if len(members) == 2 else None})
+    return {"kind": "points-multi", "n": n, "grid": draw(st.sampled_from([0, 0, 0, 2])),
+            "pool": pool, "loaders": loaders,
+            "passes": draw(st.lists(st.integers(0, 5), max_size=4)),
             "rng": draw(st.integers(0, 2 ** 31 - 1))}
 
 
 def strategy(tier):
     nmax = 40 if tier == "thorough" else 30
     return st.one_of(_points_case(nmax), _deeponet_case(nmax, "shared"),
-                     _deeponet_case(nmax, "unique"))
+                     _deeponet_case(nmax, "unique"), _multi_case(nmax))
 
 
 def _rot_cond(k):
@@ -160,6 +236,68 @@ def extra_cases(tier, seed):
                                "pts": 1 + k % 2, "bd": 1, "td": 1 + (k // 2) % 2,
                                "od": 1 + (k // 3) % 2, "cond": _rot_cond(k),
                                "rng": (seed * 7919 + k) % (2 ** 31 - 1)}
+    yield from _pinned_shared(tier, seed, k)
+
+
+def _pinned_shared(tier, seed, k):
+    """Pinned histories with caller data shared between loaders (reached at every seed)."""
+    own = lambda d=1: {"src": "own", "dim": d}                      # noqa: E731
+    win = lambda s, d=1: {"src": "window", "dim": d, "shift": s}    # noqa: E731
+
+    def ld(members, shuffle, cond=None):
+        return {"members": members, "shuffle": shuffle, "cond": cond}
+
+    c2 = {"norm": 2, "root": 2.0}
+    templates = [
+        # one input x, two targets u, v: one loader per target (two DataConditions)
+        ([own(), own(), own(2)], [ld([0, 1], True), ld([0, 2], True)], []),
+        ([own(), own(), own(2)], [ld([0, 1], False, c2), ld([0, 2], True, c2)], [0, 1, 0]),
+        ([own(), own(), own(2)], [ld([0, 1], True, c2), ld([0, 2], False, c2)], [1, 0]),
+        # two inputs, one shared target; a third loader on everything
+        ([own(2), own(), own()], [ld([0, 2], True), ld([1, 2], True), ld([0, 1, 2], True)], [2, 0]),
+        # the same Points object in both places of a tuple, and in a second loader
+        ([own(), own()], [ld([0, 0], True), ld([0, 1], True)], []),
+        # a single Points in a loader of its own plus a paired loader
+        ([own(), own()], [ld([0], True), ld([0, 1], False)], []),
+        # x_t / x_{t+1} windows of one time series in ONE loader
+        ([win(0), win(1)], [ld([0, 1], True, c2)], [0]),
+        ([win(0, 2), win(2), own()], [ld([0, 1, 2], True)], []),
+        # windows in different loaders
+        ([win(0), win(1), own(), own()], [ld([0, 2], True), ld([1, 3], True)], []),
+        # a second Points object on the same tensor
+        ([own(), {"src": "alias", "dim": 1, "of": 0}, own(), own()],
+         [ld([0, 2], True), ld([1, 3], False)], []),
+        # column blocks of one data tensor
+        ([{"src": "cols", "dim": 2, "col": 0}, {"src": "cols", "dim": 1, "col": 2}, own()],
+         [ld([0, 1], True), ld([0, 2], True)], [1, 0, 1]),
+    ]
+    sizes = [(23, 5, False), (8, 8, False), (12, 4, True), (7, 3, True), (2, 1, False)]
+    if tier == "thorough":
+        sizes += [(40, 7, False), (16, 32, False), (9, 2, True)]
+    for ti, (pool, loaders, passes) in enumerate(templates):
+        for si, (n, bs, drop_last) in enumerate(sizes):
+            k += 1
+            yield {"kind": "points-multi", "n": n, "grid": 2 if (ti + si) % 4 == 3 else 0,
+                   "pool": pool,
+                   "loaders": [dict(l_, bs=bs if j % 2 == 0 else max(1, bs - 1),
+                                    drop_last=bool(drop_last and j == 0))
+                               for j, l_ in enumerate(loaders)],
+                   "passes": passes, "rng": (seed * 7919 + k) % (2 ** 31 - 1)}
+    # DeepONet: a second loader on the very same tensors
+    shares = [["branch", "trunk"], ["branch", "trunk", "out"], ["branch"], ["trunk"], ["out"]]
+    for layout in ("shared", "unique"):
+        for hi, share in enumerate(shares):
+            for fi, (sb, st_, tsb, tst) in enumerate([(True, True, True, True),
+                                                      (False, False, True, True),
+                                                      (True, False, False, True)]):
+                k += 1
+                yield {"kind": "deeponet", "layout": layout, "nf": 5, "bb": 2 + fi, "nt": 7,
+                       "tb": 3, "shuffle_branch": sb, "shuffle_trunk": st_, "pts": 2, "bd": 1,
+                       "td": 1 + hi % 2, "od": 1 + fi % 2, "cond": _rot_cond(k),
+                       "twin": {"bb": 5 - fi, "tb": 7 if fi else 4, "shuffle_branch": tsb,
+                                "shuffle_trunk": tst, "share": share, "first": bool((hi + fi) % 2),
+                                "cond": _rot_cond(k + 6)},
+                       "rng": (seed * 7919 + k) % (2 ** 31 - 1)}
 
 
 def finish(ctx):
@@ -167,7 +305,9 @@ def finish(ctx):
     p = 12 if ctx.tier == "quick" else 24
     return {"exhaustive_subspace": f"PointsDataLoader n<={p}, batch<=n+2, shuffle, drop_last; "
                                    f"DeepONetDataLoader both layouts, all sizes<={n} with batch "
-                                   f"in -1,1..size+2 on both axes (worker 0)"}
+                                   f"in -1,1..size+2 on both axes (worker 0); pinned: 11 "
+                                   f"shared-data loader histories x {5 if ctx.tier == 'quick' else 8} "
+                                   f"sizes, 30 DeepONet twin-loader configurations"}
 
 
 # ----------------------------------------------------------------------------------------
@@ -244,18 +384,114 @@ def _relation(n, bs):
 # ----------------------------------------------------------------------------------------
 # PointsDataLoader
 class _SpyModel(Model):
-    def __init__(self, in_space, out_space, targets, err):
+    def __init__(self, in_space, out_space, targets, err, off=0.0):
         super().__init__(in_space, out_space)
-        self.targets, self.err, self.calls = targets, err, []
+        self.targets, self.err, self.off, self.calls = targets, err, off, []
 
     def forward(self, points):
         points = self._fix_points_order(points)
         t = points.as_tensor
-        ids = _ids_clamped(t.reshape(t.shape[0], -1)[:, 0] if t.shape[0] else t.reshape(0),
-                           len(self.targets))
+        col = t.reshape(t.shape[0], -1)[:, 0] if t.shape[0] else t.reshape(0)
+        ids = _ids_clamped(col - self.off, len(self.targets))
         self.calls.append(tuple(ids.tolist()))
         e = self.err[ids].reshape((-1,) + (1,) * (self.targets.dim() - 1))
         return Points(self.targets[ids] + e, self.output_space)
+
+
+class _Notes:
+    """violations of one loader collected as (kind, feature suffix) -> count / first detail"""
+
+    def __init__(self):
+        self.bad, self.first = Counter(), {}
+
+    def __call__(self, kind, suffix, detail):
+        self.bad[(kind, suffix)] += 1
+        self.first.setdefault((kind, suffix), detail)
+
+    def has(self, kind):
+        return any(k == kind for k, _ in self.bad)
+
+
+def _points_pass(batches, length, n, bs, shuffle, drop_last, origs, offs, spaces, note, tag=""):
+    """All per-pass oracles of a PointsDataLoader.  origs[k] / offs[k] / spaces[k]: snapshot of the
+    data of member k as the caller built it, the value its first column carries in row 0 (row
+    i carries offs[k] + i) and its space.  Returns (recorded row ids per batch, structural)."""
+    m = len(origs)
+    seen = torch.zeros(n, dtype=torch.long)
+    recorded, structural = [], False
+    for bi, batch in enumerate(batches):
+        members = _as_members(batch, m)
+        if members is None:
+            note("batch-structure", "", f"{tag}batch {bi} is {type(batch).__name__}, expected "
+                 f"{m} Points")
+            structural = True
+            continue
+        ts = [p.as_tensor for p in members]
+        if any(p.space != s for p, s in zip(members, spaces)):
+            note("batch-structure", "-space", f"{tag}batch {bi}: spaces "
+                 f"{[str(p.space) for p in members]}")
+        if any(tuple(t.shape[1:]) != tuple(o.shape[1:]) or t.dim() != o.dim()
+               for t, o in zip(ts, origs)) or len({t.shape[0] for t in ts}) != 1:
+            note("batch-structure", "", f"{tag}batch {bi}: shapes {[tuple(t.shape) for t in ts]}")
+            structural = True
+            continue
+        rows = ts[0].shape[0]
+        col = ts[0].reshape(rows, -1)[:, 0] if rows else ts[0].reshape(0)
+        ids, ok = _decode(col - offs[0], n)
+        if not ok:
+            note("pairing", "", f"{tag}batch {bi}: first member carries no valid row ids")
+            structural = True
+            continue
+        for k in range(m):
+            if not torch.equal(ts[k], origs[k][ids]):
+                note("pairing", "", f"{tag}batch {bi}: member {k} rows are not the rows "
+                     f"{ids.tolist()[:8]} named by member 0: got "
+                     f"{ts[k].reshape(rows, -1)[:4, 0].tolist()}")
+                break
+        if rows > bs:
+            note("batch-size", "", f"{tag}batch {bi} has {rows} rows, requested {bs}")
+        if drop_last and rows != bs:
+            note("drop-last", "-partial-batch", f"{tag}batch {bi} has {rows} rows with "
+                 f"drop_last=True and batch size {bs}")
+        if rows == 0:
+            note("batch-size", "-empty-batch", f"{tag}batch {bi} is empty")
+        seen[ids] += 1
+        recorded.append(ids)
+
+    if not structural:
+        missing = (seen == 0).nonzero().reshape(-1).tolist()
+        allowed = n % bs if drop_last else 0
+        if len(missing) > allowed:
+            note("coverage", "", f"{tag}{len(missing)} of {n} samples never presented "
+                 f"(allowed dropped tail {allowed}): {missing[:10]}")
+        elif drop_last and not shuffle and missing and min(missing) < (n // bs) * bs:
+            note("coverage", "", f"{tag}dropped samples {missing[:10]} are not the tail "
+                 f"(n={n}, batch {bs})")
+    if length != len(batches):
+        note("len", "", f"{tag}len(loader)={length} but {len(batches)} batches yielded")
+    return recorded, structural, seen
+
+
+def _points_condition(ctx, loader, cond, spaces, origs, offs, n, recorded, notes):
+    """DataCondition(use_full_dataset=True) on a two-member loader; returns the loss or None."""
+    err = _err_v(n)
+    model = _SpyModel(spaces[0], spaces[1], origs[1], err, off=offs[0])
+    with ctx.lib("DataCondition()", feature="points-condition"):
+        c = DataCondition(module=model, dataloader=loader, norm=cond["norm"],
+                          root=cond["root"], use_full_dataset=True)
+    with ctx.lib("DataCondition.forward", feature="points-condition"):
+        out = c()
+    want_calls = Counter(tuple(i.tolist()) for i in recorded)
+    if Counter(model.calls) != want_calls:
+        ctx.violation("aggregate-batches", "points-condition",
+                      f"model saw {len(model.calls)} batches, one pass has {len(recorded)}; "
+                      f"first seen {model.calls[:3]}")
+    # a loss computed on mis-paired rows is the pairing defect again, not a second finding
+    if recorded and all(len(i) for i in recorded) and not notes.has("pairing"):
+        rep = int(origs[1][0].numel())
+        per = [err[i].to(torch.float64).repeat_interleave(rep) for i in recorded]
+        return _check_value(ctx, "points-condition", out, per, cond)
+    return None
 
 
 def _run_points(spec, ctx):
@@ -270,6 +506,7 @@ def _run_points(spec, ctx):
         if g:
             t = t.unsqueeze(1) + 0.0625 * torch.arange(g, dtype=torch.float32).reshape(1, g, 1)
         origs.append(t)
+    offs = [1000.0 * k for k in range(m)]
     data = [Points(t.clone(), s) for t, s in zip(origs, spaces)]
     arg = data[0] if (m == 1 and spec.get("bare")) else tuple(data)
     with ctx.lib("PointsDataLoader()", feature=feat):
@@ -280,88 +517,17 @@ def _run_points(spec, ctx):
     with ctx.lib("iterate loader", feature=feat):
         batches = list(loader)
 
-    seen = torch.zeros(n, dtype=torch.long)
-    recorded, structural = [], False
-    bad = Counter()
-    first = {}
-
-    def note(kind, feature, detail):
-        bad[(kind, feature)] += 1
-        first.setdefault((kind, feature), detail)
-
-    for bi, batch in enumerate(batches):
-        members = _as_members(batch, m)
-        if members is None:
-            note("batch-structure", feat, f"batch {bi} is {type(batch).__name__}, expected "
-                 f"{m} Points")
-            structural = True
-            continue
-        ts = [p.as_tensor for p in members]
-        if any(p.space != s for p, s in zip(members, spaces)):
-            note("batch-structure", feat + "-space", f"batch {bi}: spaces "
-                 f"{[str(p.space) for p in members]}")
-        if any(tuple(t.shape[1:]) != tuple(o.shape[1:]) or t.dim() != o.dim()
-               for t, o in zip(ts, origs)) or len({t.shape[0] for t in ts}) != 1:
-            note("batch-structure", feat, f"batch {bi}: shapes {[tuple(t.shape) for t in ts]}")
-            structural = True
-            continue
-        rows = ts[0].shape[0]
-        ids, ok = _decode(ts[0].reshape(rows, -1)[:, 0] if rows else ts[0].reshape(0), n)
-        if not ok:
-            note("pairing", feat, f"batch {bi}: first member carries no valid row ids")
-            structural = True
-            continue
-        for k in range(m):
-            if not torch.equal(ts[k], origs[k][ids]):
-                note("pairing", feat, f"batch {bi}: member {k} rows are not the rows "
-                     f"{ids.tolist()[:8]} named by member 0: got {ts[k].reshape(rows, -1)[:4, 0].tolist()}")
-                break
-        if rows > bs:
-            note("batch-size", feat, f"batch {bi} has {rows} rows, requested {bs}")
-        if spec["drop_last"] and rows != bs:
-            note("drop-last", feat + "-partial-batch", f"batch {bi} has {rows} rows with "
-                 f"drop_last=True and batch size {bs}")
-        if rows == 0:
-            note("batch-size", feat + "-empty-batch", f"batch {bi} is empty")
-        seen[ids] += 1
-        recorded.append(ids)
-
-    if not structural:
-        missing = (seen == 0).nonzero().reshape(-1).tolist()
-        allowed = n % bs if spec["drop_last"] else 0
-        if len(missing) > allowed:
-            note("coverage", feat, f"{len(missing)} of {n} samples never presented "
-                 f"(allowed dropped tail {allowed}): {missing[:10]}")
-        elif spec["drop_last"] and not spec["shuffle"] and missing and \
-                min(missing) < (n // bs) * bs:
-            note("coverage", feat, f"dropped samples {missing[:10]} are not the tail "
-                 f"(n={n}, batch {bs})")
-    if length != len(batches):
-        note("len", feat, f"len(loader)={length} but {len(batches)} batches yielded")
-
+    notes = _Notes()
     got = None
     cond = spec.get("cond")
-    if cond and m == 2 and not structural:
-        err = _err_v(n)
-        model = _SpyModel(spaces[0], spaces[1], origs[1], err)
-        with ctx.lib("DataCondition()", feature="points-condition"):
-            c = DataCondition(module=model, dataloader=loader, norm=cond["norm"],
-                              root=cond["root"], use_full_dataset=True)
-        with ctx.lib("DataCondition.forward", feature="points-condition"):
-            out = c()
-        want_calls = Counter(tuple(i.tolist()) for i in recorded)
-        if Counter(model.calls) != want_calls:
-            note("aggregate-batches", "points-condition",
-                 f"model saw {len(model.calls)} batches, one pass has {len(recorded)}; "
-                 f"first seen {model.calls[:3]}")
-        # a loss computed on mis-paired rows is the pairing defect again, not a second finding
-        if recorded and all(len(i) for i in recorded) and not any(k == "pairing" for k, _ in bad):
-            rep = int(origs[1][0].numel())
-            per = [err[i].to(torch.float64).repeat_interleave(rep) for i in recorded]
-            got = _check_value(ctx, "points-condition", out, per, cond)
-
-    for (kind, feature), cnt in sorted(bad.items()):
-        ctx.violation(kind, feature, f"{first[(kind, feature)]} [{cnt} occurrence(s)]")
+    try:
+        recorded, structural, seen = _points_pass(batches, length, n, bs, spec["shuffle"],
+                                                  spec["drop_last"], origs, offs, spaces, notes)
+        if cond and m == 2 and not structural:
+            got = _points_condition(ctx, loader, cond, spaces, origs, offs, n, recorded, notes)
+    finally:
+        for (kind, suffix), cnt in sorted(notes.bad.items()):
+            ctx.violation(kind, feat + suffix, f"{notes.first[(kind, suffix)]} [{cnt} occurrence(s)]")
 
     rel = _relation(n, bs)
     classes = ["points", f"points-bs-{rel}", f"points-tuple{m}"]
@@ -374,6 +540,166 @@ def _run_points(spec, ctx):
             "classes": classes,
             "summary": {"batches": len(batches), "len": length,
                         "covered": int((seen > 0).sum()), "of": n, "loss": got}}
+
+
+# ----------------------------------------------------------------------------------------
+# several PointsDataLoaders on shared caller data
+def _build_pool(spec):
+    """caller-side data: list of dicts {t (tensor handed to Points), orig (snapshot), off, dim,
+    group (label of the underlying storage)}.  Entry kinds:
+      own    - private tensor, row i column c carries 1000(e+1)+i+0.25c
+      alias  - a second Points object wrapping the very same tensor as an earlier entry
+      window - rows [s, s+n) of ONE base tensor with n+WINDOW_PAD rows (x_t / x_{t+s} pairs of a
+               time series), first `dim` of its 2 columns; rows of different windows overlap
+      cols   - `dim` adjacent columns of ONE base tensor with 3 columns (data[:, :2], data[:, 2:])
+    """
+    n, g = spec["n"], spec.get("grid", 0)
+
+    def make(rows, d, base):
+        t = base + torch.arange(rows, dtype=torch.float32).reshape(rows, 1) \
+            + 0.25 * torch.arange(d, dtype=torch.float32).reshape(1, d)
+        if g:
+            t = t.unsqueeze(1) + 0.0625 * torch.arange(g, dtype=torch.float32).reshape(1, g, 1)
+        return t
+
+    wbase, cbase = make(n + WINDOW_PAD, 2, 7000.0), make(n, 3, 9000.0)
+    pool = []
+    for e, ent in enumerate(spec["pool"]):
+        src, d = ent["src"], ent["dim"]
+        if src == "alias" and e == 0:
+            src = "own"
+        if src == "own":
+            item = {"t": make(n, d, 1000.0 * (e + 1)), "off": 1000.0 * (e + 1), "dim": d,
+                    "group": f"own{e}"}
+        elif src == "alias":
+            tgt = pool[ent["of"] % e]
+            item = {"t": tgt["t"], "off": tgt["off"], "dim": tgt["dim"], "group": tgt["group"]}
+        elif src == "window":
+            sft = ent["shift"] % (WINDOW_PAD + 1)
+            item = {"t": wbase[sft:sft + n, ..., :d], "off": 7000.0 + sft, "dim": d, "group": "win"}
+        else:
+            a = ent["col"] % (3 - d + 1)
+            item = {"t": cbase[..., a:a + d], "off": 9000.0 + 0.25 * a, "dim": d, "group": "cols"}
+        item["src"] = src
+        item["space"] = Space({f"v{e}": item["dim"]})
+        pool.append(item)
+    for item in pool:
+        item["orig"] = item["t"].clone()
+    for item in pool:                       # one Points object per pool entry, built once
+        item["points"] = Points(item["t"], item["space"])
+    return pool
+
+
+def _run_multi(spec, ctx):
+    n = spec["n"]
+    pool = _build_pool(spec)
+    cfgs = []
+    for lc in spec["loaders"]:
+        cfgs.append(dict(lc, members=[k % len(pool) for k in lc["members"]]))
+    # who shares storage with whom
+    use = Counter(pool[k]["group"] for c in cfgs for k in c["members"])
+    for c in cfgs:
+        c["shared"] = any(use[pool[k]["group"]] > 1 for k in c["members"])
+    base = "points-loader"
+
+    loaders = []
+    for li, c in enumerate(cfgs):
+        pts = [pool[k]["points"] for k in c["members"]]
+        arg = pts[0] if (len(pts) == 1 and li % 2) else tuple(pts)
+        c["rng_state"] = torch.get_rng_state()     # lets the diagnosis replay the same shuffle
+        with ctx.lib("PointsDataLoader()", feature=base):
+            loaders.append(PointsDataLoader(arg, batch_size=c["bs"], shuffle=c["shuffle"],
+                                            drop_last=c["drop_last"]))
+    order = [p % len(cfgs) for p in spec.get("passes", [])]
+    order += [li for li in range(len(cfgs)) if li not in order]
+
+    notes = [_Notes() for _ in cfgs]
+    first_pass = [None] * len(cfgs)
+    structural = [False] * len(cfgs)
+    losses = []
+
+    def views(c):
+        ms = [pool[k] for k in c["members"]]
+        return [x["orig"] for x in ms], [x["off"] for x in ms], [x["space"] for x in ms]
+
+    try:
+        for pi, li in enumerate(order):
+            c = cfgs[li]
+            with ctx.lib("len(loader)", feature=base):
+                length = len(loaders[li])
+            with ctx.lib("iterate loader", feature=base):
+                batches = list(loaders[li])
+            origs, offs, spaces = views(c)
+            rec, st_, _ = _points_pass(batches, length, n, c["bs"], c["shuffle"], c["drop_last"],
+                                       origs, offs, spaces, notes[li],
+                                       tag=f"loader {li} of {len(cfgs)}, pass {pi}: ")
+            structural[li] = structural[li] or st_
+            if first_pass[li] is None:
+                first_pass[li] = rec
+        for li, c in enumerate(cfgs):
+            cond = c.get("cond")
+            ks = c["members"]
+            if cond and len(ks) == 2 and ks[0] != ks[1] and not structural[li]:
+                origs, offs, spaces = views(c)
+                losses.append(_points_condition(ctx, loaders[li], cond, spaces, origs, offs, n,
+                                                first_pass[li], notes[li]))
+    finally:
+        # A problem of a loader that holds shared data is attributed to the sharing iff the same
+        # loader configuration on private copies of the same data does not show it.
+        for li, c in enumerate(cfgs):
+            if not notes[li].bad:
+                continue
+            solo = _solo_points(c, pool, n) if c["shared"] else None
+            for (kind, suffix), cnt in sorted(notes[li].bad.items()):
+                feat = base + ("-shared-data" if solo is not None and (kind, suffix) not in solo
+                               else "") + suffix
+                ctx.violation(kind, feat, f"{notes[li].first[(kind, suffix)]} [{cnt} occurrence(s)]")
+
+    grp = [[pool[k]["group"] for k in c["members"]] for c in cfgs]
+    shuffled_shared = any(c["shuffle"] and n >= 2 and any(use[g_] > 1 for g_ in gs)
+                          for c, gs in zip(cfgs, grp))
+    ent_use = Counter(k for c in cfgs for k in set(c["members"]))
+    classes = ["multi", f"multi-loaders-{len(cfgs)}"]
+    classes += ["multi-shared-object"] if any(v > 1 for v in ent_use.values()) else []
+    classes += ["multi-same-object-twice-in-tuple"] if any(
+        len(set(c["members"])) < len(c["members"]) for c in cfgs) else []
+    by_group = {}
+    for k in sorted(ent_use):
+        by_group.setdefault(pool[k]["group"], set()).add(k)
+    classes += ["multi-shared-storage-other-object"] if any(
+        len(v) > 1 for v in by_group.values()) else []
+    classes += ["multi-windows-in-one-tuple"] if any(gs.count("win") > 1 for gs in grp) else []
+    classes += ["multi-different-partners"] if any(
+        set(a["members"]) & set(b["members"]) and set(a["members"]) != set(b["members"])
+        for i, a in enumerate(cfgs) for b in cfgs[i + 1:]) else []
+    classes += ["multi-shuffle-on-shared"] if shuffled_shared else ["multi-no-shuffle-on-shared"]
+    classes += ["multi-grid"] if spec.get("grid", 0) else []
+    classes += ["multi-cond"] if losses else []
+    classes += ["multi-repeated-pass"] if len(order) > len(cfgs) else []
+    return {"nontrivial": bool(shuffled_shared), "classes": classes,
+            "summary": {"loaders": len(cfgs), "passes": len(order),
+                        "loss": [x for x in losses if x is not None][:1] or None}}
+
+
+def _solo_points(c, pool, n):
+    """The set of (kind, suffix) problems the loader configuration c shows on PRIVATE copies of
+    its data (one fresh tensor per tuple position).  A crash counts as 'shows everything'."""
+    ms = [pool[k] for k in c["members"]]
+    notes = _Notes()
+    saved = torch.get_rng_state()
+    try:
+        torch.set_rng_state(c["rng_state"])
+        pts = tuple(Points(x["orig"].clone(), x["space"]) for x in ms)
+        loader = PointsDataLoader(pts, batch_size=c["bs"], shuffle=c["shuffle"],
+                                  drop_last=c["drop_last"])
+        _points_pass(list(loader), len(loader), n, c["bs"], c["shuffle"], c["drop_last"],
+                     [x["orig"] for x in ms], [x["off"] for x in ms], [x["space"] for x in ms],
+                     notes)
+    except Exception:   # noqa: BLE001 - diagnosis only; the real run reports crashes itself
+        return None
+    finally:
+        torch.set_rng_state(saved)
+    return set(notes.bad)
 
 
 # ----------------------------------------------------------------------------------------
@@ -419,16 +745,11 @@ def _cycle(n, bs):
     return math.lcm(n, bs) // bs
 
 
-def _run_deeponet(spec, ctx):
+def _deeponet_data(spec):
     layout = spec["layout"]
     unique = layout == "unique"
-    nf, nt, bb, tb = spec["nf"], spec["nt"], spec["bb"], spec["tb"]
+    nf, nt = spec["nf"], spec["nt"]
     pts, bd, td, od = spec["pts"], spec["bd"], spec["td"], spec["od"]
-    feat = f"deeponet-{layout}"
-    bb_eff = nf if bb < 0 else bb
-    tb_eff = nt if tb < 0 else tb
-    b_space, t_space, o_space = Space({"f": bd}), Space({"t": td}), Space({"u": od})
-
     ar = lambda k: torch.arange(k, dtype=torch.float32)   # noqa: E731
     branch0 = ar(nf).reshape(nf, 1, 1) + 0.0625 * ar(pts).reshape(1, pts, 1) \
         + 0.25 * ar(bd).reshape(1, 1, bd)
@@ -439,38 +760,43 @@ def _run_deeponet(spec, ctx):
         trunk0 = ar(nt).reshape(nt, 1) + 0.25 * ar(td).reshape(1, td)
     out0 = 100.0 * ar(nf).reshape(nf, 1, 1) + ar(nt).reshape(1, nt, 1) \
         + 0.5 * ar(od).reshape(1, 1, od)
+    return {"layout": layout, "unique": unique, "nf": nf, "nt": nt, "pts": pts, "bd": bd,
+            "td": td, "od": od, "feat": f"deeponet-{layout}", "branch": branch0, "trunk": trunk0,
+            "out": out0, "b_space": Space({"f": bd}), "t_space": Space({"t": td}),
+            "o_space": Space({"u": od})}
 
-    with ctx.lib("DeepONetDataLoader()", feature=feat):
-        loader = DeepONetDataLoader(branch0.clone(), trunk0.clone(), out0.clone(),
-                                    b_space, t_space, o_space, bb, tb,
-                                    shuffle_branch=spec["shuffle_branch"],
-                                    shuffle_trunk=spec["shuffle_trunk"])
-    with ctx.lib("len(loader)", feature=feat):
-        length = len(loader)
-    with ctx.lib("iterate loader", feature=feat):
-        batches = list(loader)
 
+def _deeponet_make(D, cfg, tensors):
+    return DeepONetDataLoader(tensors["branch"], tensors["trunk"], tensors["out"],
+                              D["b_space"], D["t_space"], D["o_space"], cfg["bb"], cfg["tb"],
+                              shuffle_branch=cfg["shuffle_branch"],
+                              shuffle_trunk=cfg["shuffle_trunk"])
+
+
+def _deeponet_pass(D, cfg, batches, length, note, tag=""):
+    """All per-pass oracles of one DeepONetDataLoader (no library calls).  note(kind, suffix,
+    detail).  Returns dict(recorded, structural, seen, lb, lt, common)."""
+    unique, nf, nt = D["unique"], D["nf"], D["nt"]
+    pts, bd, td, od = D["pts"], D["bd"], D["td"], D["od"]
+    branch0, trunk0, out0 = D["branch"], D["trunk"], D["out"]
+    bb, tb = cfg["bb"], cfg["tb"]
+    bb_eff = nf if bb < 0 else bb
+    tb_eff = nt if tb < 0 else tb
     seen = torch.zeros((nf, nt), dtype=torch.bool)
     min_rows = [nf, nt]
     recorded, structural = [], False
-    bad = Counter()
-    first = {}
-
-    def note(kind, feature, detail):
-        bad[(kind, feature)] += 1
-        first.setdefault((kind, feature), detail)
 
     for bi, batch in enumerate(batches):
         members = _as_members(batch, 3)
         if members is None:
-            note("batch-structure", feat, f"batch {bi} is {type(batch).__name__}, expected "
+            note("batch-structure", "", f"{tag}batch {bi} is {type(batch).__name__}, expected "
                  f"(branch, trunk, output) Points")
             structural = True
             continue
         B, T, O = (p.as_tensor for p in members)
-        if [p.space for p in members] != [b_space, t_space, o_space]:
-            note("batch-structure", feat + "-space",
-                 f"batch {bi}: spaces {[str(p.space) for p in members]}")
+        if [p.space for p in members] != [D["b_space"], D["t_space"], D["o_space"]]:
+            note("batch-structure", "-space",
+                 f"{tag}batch {bi}: spaces {[str(p.space) for p in members]}")
         shapes_ok = B.dim() == 3 and O.dim() == 3 and tuple(B.shape[1:]) == (pts, bd) \
             and O.shape[0] == B.shape[0] and O.shape[2] == od
         if shapes_ok and unique:
@@ -478,7 +804,7 @@ def _run_deeponet(spec, ctx):
         elif shapes_ok:
             shapes_ok = T.dim() == 2 and tuple(T.shape) == (O.shape[1], td)
         if not shapes_ok:
-            note("batch-structure", feat, f"batch {bi}: shapes branch {tuple(B.shape)} trunk "
+            note("batch-structure", "", f"{tag}batch {bi}: shapes branch {tuple(B.shape)} trunk "
                  f"{tuple(T.shape)} output {tuple(O.shape)}")
             structural = True
             continue
@@ -492,38 +818,38 @@ def _run_deeponet(spec, ctx):
         else:
             tj, ok_t = _decode(T[:, 0], nt)
         if not (ok_f and ok_t):
-            note("pairing", feat, f"batch {bi}: branch/trunk rows carry no valid ids")
+            note("pairing", "", f"{tag}batch {bi}: branch/trunk rows carry no valid ids")
             structural = True
             continue
         if not torch.equal(B, branch0[fi]):
-            note("pairing", feat, f"batch {bi}: branch rows are not the original rows of "
+            note("pairing", "", f"{tag}batch {bi}: branch rows are not the original rows of "
                  f"functions {fi.tolist()[:8]}")
         if unique:
             if not torch.equal(owner, fi.reshape(-1, 1).expand_as(owner)):
-                note("pairing", feat, f"batch {bi}: trunk rows of functions "
+                note("pairing", "", f"{tag}batch {bi}: trunk rows of functions "
                      f"{owner[:, 0].tolist()[:8]} delivered with branch functions {fi.tolist()[:8]}")
             elif not torch.equal(T, trunk0[fi.reshape(-1, 1), tj]):
-                note("pairing", feat, f"batch {bi}: trunk rows differ from the original rows")
+                note("pairing", "", f"{tag}batch {bi}: trunk rows differ from the original rows")
             want = out0[fi.reshape(-1, 1), tj]
             pair_f, pair_t = fi.reshape(-1, 1).expand_as(tj), tj
         else:
             if not torch.equal(T, trunk0[tj]):
-                note("pairing", feat, f"batch {bi}: trunk rows differ from the original rows "
+                note("pairing", "", f"{tag}batch {bi}: trunk rows differ from the original rows "
                      f"of locations {tj.tolist()[:8]}")
             want = out0[fi][:, tj]
             pair_f = fi.reshape(-1, 1).expand(nb_rows, nt_rows)
             pair_t = tj.reshape(1, -1).expand(nb_rows, nt_rows)
         if not torch.equal(O, want):
             r = (O != want).nonzero()[0].tolist()
-            note("pairing", feat, f"batch {bi}: output[{r[0]},{r[1]}]={O[r[0], r[1]].tolist()} "
+            note("pairing", "", f"{tag}batch {bi}: output[{r[0]},{r[1]}]={O[r[0], r[1]].tolist()} "
                  f"but branch row is function {int(fi[r[0]])} and trunk row is location "
                  f"{int(pair_t[r[0], r[1]])} (expected {want[r[0], r[1]].tolist()})")
         if nb_rows > bb_eff:
-            note("batch-size", feat + "-branch", f"batch {bi}: {nb_rows} functions, requested {bb}")
+            note("batch-size", "-branch", f"{tag}batch {bi}: {nb_rows} functions, requested {bb}")
         if nt_rows > tb_eff:
-            note("batch-size", feat + "-trunk", f"batch {bi}: {nt_rows} locations, requested {tb}")
+            note("batch-size", "-trunk", f"{tag}batch {bi}: {nt_rows} locations, requested {tb}")
         if nb_rows == 0 or nt_rows == 0:
-            note("batch-size", feat + "-empty-batch", f"batch {bi}: {nb_rows}x{nt_rows}")
+            note("batch-size", "-empty-batch", f"{tag}batch {bi}: {nb_rows}x{nt_rows}")
         seen[pair_f.reshape(-1), pair_t.reshape(-1)] = True
         recorded.append((fi, tj))
         min_rows[0], min_rows[1] = min(min_rows[0], nb_rows), min(min_rows[1], nt_rows)
@@ -538,55 +864,128 @@ def _run_deeponet(spec, ctx):
         nmiss = int((~seen).sum())
         if nmiss:
             if unique:
-                cov = feat + ("-batch-exceeds-data" if exceeds else
-                              "-unequal-batch-counts" if lb != lt else "")
+                cov = "-batch-exceeds-data" if exceeds else "-unequal-batch-counts" if lb != lt else ""
             else:
-                cov = feat + ("-trunk-pairs" if common else "")
+                cov = "-trunk-pairs" if common else ""
             ex = (~seen).nonzero()[:6].tolist()
-            note("coverage", cov, f"{nmiss} of {nf * nt} (function, location) pairs never "
+            note("coverage", cov, f"{tag}{nmiss} of {nf * nt} (function, location) pairs never "
                  f"presented in one pass of {len(batches)} batches, e.g. {ex} "
                  f"(functions {nf} batch {bb}, locations {nt} batch {tb})")
     if length != len(batches):
-        note("len", feat, f"len(loader)={length} but {len(batches)} batches yielded")
+        note("len", "", f"{tag}len(loader)={length} but {len(batches)} batches yielded")
+    return {"recorded": recorded, "structural": structural, "seen": seen, "lb": lb, "lt": lt,
+            "common": common, "bb_eff": bb_eff, "tb_eff": tb_eff}
 
-    got = None
-    cond = spec.get("cond")
-    if cond and not structural:
-        cfeat = f"deeponet-{layout}-condition"
-        with ctx.lib("build DeepONet", feature=cfeat):
-            sampler = GridSampler(Interval(Space({"s": 1}), 0.0, 1.0), n_points=pts)
-            fspace = FunctionSpace(Interval(Space({"s": 1}), 0.0, 1.0), b_space)
-            branch = _SpyBranch(fspace, sampler, nf, od)
-            trunk = _SpyTrunk(t_space, unique, nt)
-            net = DeepONet(trunk, branch, o_space, output_neurons=3 * od)
-        with ctx.lib("DeepONetDataCondition()", feature=cfeat):
-            c = DeepONetDataCondition(net, loader, norm=cond["norm"], root=cond["root"],
-                                      use_full_dataset=True)
-        with ctx.lib("DeepONetDataCondition.forward", feature=cfeat):
-            out = c()
-        want_calls = Counter((tuple(f.tolist()), tuple(t.reshape(-1).tolist()))
-                             for f, t in recorded)
-        got_calls = Counter(zip(branch.calls, trunk.calls))
-        if len(branch.calls) != len(trunk.calls) or got_calls != want_calls:
-            note("aggregate-batches", cfeat,
-                 f"model saw {len(branch.calls)} branch / {len(trunk.calls)} trunk batches, "
-                 f"one pass has {len(recorded)}")
-        if recorded and all(len(f) and t.numel() for f, t in recorded) and \
-                not any(k == "pairing" for k, _ in bad):
-            u, v = _err_u(nf).to(torch.float64), _err_v(nt).to(torch.float64)
-            cf = torch.arange(1, od + 1, dtype=torch.float64)
-            per = []
-            for f, t in recorded:
-                e = u[f].reshape(-1, 1) * (v[t] if unique else v[t].reshape(1, -1))
-                per.append((e.unsqueeze(-1) * cf).reshape(-1))
-            got = _check_value(ctx, cfeat, out, per, cond)
 
-    for (kind, feature), cnt in sorted(bad.items()):
-        ctx.violation(kind, feature, f"{first[(kind, feature)]} [{cnt} occurrence(s)]")
+def _deeponet_condition(ctx, D, cfg, loader, recorded, notes):
+    unique, nf, nt, od = D["unique"], D["nf"], D["nt"], D["od"]
+    cond = cfg["cond"]
+    cfeat = f"deeponet-{D['layout']}-condition"
+    with ctx.lib("build DeepONet", feature=cfeat):
+        sampler = GridSampler(Interval(Space({"s": 1}), 0.0, 1.0), n_points=D["pts"])
+        fspace = FunctionSpace(Interval(Space({"s": 1}), 0.0, 1.0), D["b_space"])
+        branch = _SpyBranch(fspace, sampler, nf, od)
+        trunk = _SpyTrunk(D["t_space"], unique, nt)
+        net = DeepONet(trunk, branch, D["o_space"], output_neurons=3 * od)
+    with ctx.lib("DeepONetDataCondition()", feature=cfeat):
+        c = DeepONetDataCondition(net, loader, norm=cond["norm"], root=cond["root"],
+                                  use_full_dataset=True)
+    with ctx.lib("DeepONetDataCondition.forward", feature=cfeat):
+        out = c()
+    want_calls = Counter((tuple(f.tolist()), tuple(t.reshape(-1).tolist()))
+                         for f, t in recorded)
+    got_calls = Counter(zip(branch.calls, trunk.calls))
+    if len(branch.calls) != len(trunk.calls) or got_calls != want_calls:
+        ctx.violation("aggregate-batches", cfeat,
+                      f"model saw {len(branch.calls)} branch / {len(trunk.calls)} trunk batches, "
+                      f"one pass has {len(recorded)}")
+    if recorded and all(len(f) and t.numel() for f, t in recorded) and not notes.has("pairing"):
+        u, v = _err_u(nf).to(torch.float64), _err_v(nt).to(torch.float64)
+        cf = torch.arange(1, od + 1, dtype=torch.float64)
+        per = []
+        for f, t in recorded:
+            e = u[f].reshape(-1, 1) * (v[t] if unique else v[t].reshape(1, -1))
+            per.append((e.unsqueeze(-1) * cf).reshape(-1))
+        return _check_value(ctx, cfeat, out, per, cond)
+    return None
 
-    shuffled = (spec["shuffle_branch"] and nf >= 2) or (spec["shuffle_trunk"] and nt >= 2)
-    nontrivial = bool(shuffled or nf % bb_eff != 0 or nt % tb_eff != 0
-                      or (not unique and common) or (unique and lb != lt))
+
+def _solo_deeponet(D, cfg):
+    """(kind, suffix) problems of the configuration on PRIVATE copies of the data."""
+    notes = _Notes()
+    saved = torch.get_rng_state()
+    try:
+        torch.set_rng_state(cfg["rng_state"])
+        loader = _deeponet_make(D, cfg, {k: D[k].clone() for k in ("branch", "trunk", "out")})
+        _deeponet_pass(D, cfg, list(loader), len(loader), notes)
+    except Exception:   # noqa: BLE001 - diagnosis only; the real run reports crashes itself
+        return None
+    finally:
+        torch.set_rng_state(saved)
+    return set(notes.bad)
+
+
+def _run_deeponet(spec, ctx):
+    D = _deeponet_data(spec)
+    feat, unique, nf, nt = D["feat"], D["unique"], D["nf"], D["nt"]
+    twin = spec.get("twin")
+    cfgs = [{k: spec[k] for k in ("bb", "tb", "shuffle_branch", "shuffle_trunk", "cond")}]
+    tensors = [{k: D[k].clone() for k in ("branch", "trunk", "out")}]
+    if twin:
+        # a second loader handed the very same tensor objects (e.g. same inputs, other batching)
+        cfgs.append({k: twin[k] for k in ("bb", "tb", "shuffle_branch", "shuffle_trunk", "cond")})
+        tensors.append({k: tensors[0][k] if k in twin["share"] else D[k].clone()
+                        for k in ("branch", "trunk", "out")})
+    build = [1, 0] if (twin and twin["first"]) else list(range(len(cfgs)))
+    loaders = [None] * len(cfgs)
+    for i in build:
+        cfgs[i]["rng_state"] = torch.get_rng_state()   # lets the diagnosis replay the same shuffle
+        with ctx.lib("DeepONetDataLoader()", feature=feat):
+            loaders[i] = _deeponet_make(D, cfgs[i], tensors[i])
+
+    notes = [_Notes() for _ in cfgs]
+    res, lens, nbatches, losses = [], [], [], {}
+    try:
+        for i, cfg in enumerate(cfgs):
+            with ctx.lib("len(loader)", feature=feat):
+                length = len(loaders[i])
+            with ctx.lib("iterate loader", feature=feat):
+                batches = list(loaders[i])
+            res.append(_deeponet_pass(D, cfg, batches, length, notes[i],
+                                      tag=f"loader {i} of 2: " if twin else ""))
+            lens.append(length)
+            nbatches.append(len(batches))
+        for i, cfg in enumerate(cfgs):
+            if cfg["cond"] and not res[i]["structural"]:
+                losses[i] = _deeponet_condition(ctx, D, cfg, loaders[i], res[i]["recorded"],
+                                                notes[i])
+    finally:
+        # with a twin loader on common tensors a problem is attributed to the sharing iff the
+        # same configuration on private copies does not show it
+        for i, cfg in enumerate(cfgs):
+            if not notes[i].bad:
+                continue
+            solo = _solo_deeponet(D, cfg) if twin else None
+            for (kind, suffix), cnt in sorted(notes[i].bad.items()):
+                f_ = feat + ("-common-tensors" if solo is not None and (kind, suffix) not in solo
+                             else "") + suffix
+                ctx.violation(kind, f_, f"{notes[i].first[(kind, suffix)]} [{cnt} occurrence(s)]")
+
+    r0, cfg0 = res[0], cfgs[0]
+    bb, tb, cond = cfg0["bb"], cfg0["tb"], cfg0["cond"]
+    lb, lt, common, seen = r0["lb"], r0["lt"], r0["common"], r0["seen"]
+
+    def shuf(c, axes=("branch", "trunk")):
+        return ("branch" in axes and c["shuffle_branch"] and nf >= 2) or \
+               ("trunk" in axes and c["shuffle_trunk"] and nt >= 2)
+
+    shuffled = shuf(cfg0)
+    # a shuffle acting on a tensor both loaders hold (the output tensor is permuted by both flags)
+    twin_shuffled = bool(twin) and any(
+        shuf(c, [a for a in ("branch", "trunk") if a in twin["share"] or "out" in twin["share"]])
+        for c in cfgs)
+    nontrivial = bool(shuffled or nf % r0["bb_eff"] != 0 or nt % r0["tb_eff"] != 0
+                      or (not unique and common) or (unique and lb != lt) or twin_shuffled)
     classes = [feat, f"{feat}-branch-{_relation(nf, bb)}", f"{feat}-trunk-{_relation(nt, tb)}"]
     classes += [f"{feat}-shuffle"] if shuffled else []
     classes += [f"{feat}-common-cycle-factor"] if (not unique and common) else []
@@ -595,12 +994,19 @@ def _run_deeponet(spec, ctx):
     classes += [f"{feat}-equal-batch-counts"] if (unique and lb == lt) else []
     classes += [f"{feat}-cond-{cond['norm']}"] if cond else []
     classes += [f"{feat}-full-coverage"] if bool(seen.all()) else [f"{feat}-pairs-missing"]
+    if twin:
+        classes += [f"{feat}-twin", f"{feat}-twin-share-{'+'.join(sorted(twin['share']))}",
+                    f"{feat}-twin-built-{'first' if twin['first'] else 'second'}"]
+        classes += [f"{feat}-twin-shuffle-on-common"] if twin_shuffled else []
     return {"nontrivial": nontrivial, "classes": classes,
-            "summary": {"batches": len(batches), "len": length,
-                        "pairs_covered": int(seen.sum()), "pairs": nf * nt, "loss": got}}
+            "summary": {"batches": nbatches[0], "len": lens[0],
+                        "pairs_covered": int(seen.sum()), "pairs": nf * nt,
+                        "loss": losses.get(0)}}
 
 
 def run_case(spec, ctx):
     if spec["kind"] == "points":
         return _run_points(spec, ctx)
+    if spec["kind"] == "points-multi":
+        return _run_multi(spec, ctx)
     return _run_deeponet(spec, ctx)
